@@ -410,6 +410,9 @@ def check(case, M):
         todo = ["reduce", op] if op in ("minimise", "minimise_map") and not reduced else [op]
         for o in todo:
             pre_rules, pre_finals = dict(cur.rules), set(cur.finals)
+            # the container objects the operand was built over: another automaton may share them (DFTA keeps its rule
+            # table and its final set by reference), so an operation must not edit them in place
+            shared_rules, shared_finals = cur.rules, cur.finals
             wpre = wire_aut(pre_rules, pre_finals)
             wB = wire_aut(dB, fB) if o in ("product", "union") else []
             params = []
@@ -464,6 +467,10 @@ def check(case, M):
                     raise ValueError(o)
                 r_rules, r_finals = dict(res.rules), set(res.finals)
                 impl_states = set(res.states)
+                if (res is not cur or o == "reduce") and (shared_rules is not res.rules or o != "states"):
+                    if dict(shared_rules) != pre_rules or set(shared_finals) != pre_finals or dict(other.rules) != dB or set(other.finals) != set(fB):
+                        failures.append({"kind": "oracle", "what": f"{o} edits the rule table / final set of its operand in place: an automaton sharing them changes its language",
+                                         "detail": f"step {opi} ({o}): the containers held {len(pre_rules)} rules / {len(pre_finals)} final states before, {len(shared_rules)} / {len(shared_finals)} after"})
             except Exception as e:  # noqa
                 failures.append({"kind": "oracle", "what": f"{o} raised {type(e).__name__}",
                                  "detail": f"step {opi} ({o}) on {len(pre_rules)} rules: {e!r}"})
